@@ -36,11 +36,16 @@ PROP = {
              "and a starting one shows as foreign bytes; 'boundary' worlds (own part, enumerated, fast open off/on): request "
              "ADDRESS lengths and dial-error MESSAGE lengths 62, 63, 64, 65, 2047, 2048 (varint width changes, 16383/16384 "
              "capped by the 2048 limits), each relay with its own client (the same lengths are also sampled in 1/5 of the "
-             "'exact' relays / half of their failed dials); Client.TCP and the first fast-open Read are bounded by 300 s of "
+             "'exact' relays / half of their failed dials); SLOW DIAL: in 1/4 of all bubble relays (and enumerated in the "
+             "boundary worlds) the fake Outbound.TCP answers only after 50..500 ms, and with fast open the client first issues "
+             "0..2 Reads whose deadline expires while the server is still dialling, then clears the deadline -- later Reads "
+             "must deliver exactly the target's stream (prefix oracle) or the DialError; Client.TCP and the first fast-open Read are bounded by 300 s of "
              "virtual time (never answered => dial:request-never-answered / dial:error-not-carried); and a REAL-SOCKET part "
              "(job 'real', real time, no bubble): real server on UDP 127.0.0.1:0 with the DEFAULT outbound (targets are "
-             "*net.TCPConn), real clients, harness TCP listeners on 127.0.0.1:0, 32 relays quick / 240 thorough cycling "
-             "c_close_ii, t_close_ii (FIN), t_halfclose_ii (CloseWrite), t_rst (SetLinger(0)+Close mid-stream), veto_rx, "
+             "*net.TCPConn), real clients, harness TCP listeners on 127.0.0.1:0, 36 relays quick / 270 thorough cycling "
+             "c_close_ii, c_close_slow (upload of 1..4 MiB into a target that starts reading 100..500 ms late and pauses 0.3..1.5 ms "
+             "per 8..32 KiB read, default socket buffers; must receive every byte before the end of stream), t_close_ii "
+             "(FIN), t_halfclose_ii (CloseWrite), t_rst (SetLinger(0)+Close mid-stream), veto_rx, "
              "veto_tx (n-th call of that direction, n in 1..4), dial_refused (listener closed; DialError.Message must equal the "
              "error text in the server's EventLogger.TCPError); there only load-safe oracles decide: prefix both directions, "
              "completeness shape (ii) when the receiver saw the end of stream (watchdog 40 s => inconclusive), arrived <= "
